@@ -41,7 +41,7 @@ type piece struct {
 	Host   bool
 	Stmts  []gen.Stmt
 	Text   string // for rejected pieces
-	Reject string // "" | "syntax" | "undefined" | "const-assign" | "const-incdec" | "undefined-in-func" | "block-shadow-undefined" | "dup-func" | "effect-then-reject"
+	Reject string // "" | "syntax" | "undefined" | "const-assign" | "const-incdec" | "undefined-in-func" | "block-shadow-undefined" | "loop-var-shadow-undefined" | "dup-func" | "effect-then-reject"
 }
 
 type pieceObs struct {
@@ -259,6 +259,20 @@ func rejectPiece(kind string, k int, consts, funcs []string, vars ...string) pie
 		// before it fails (the block's leftover instructions only touch the block's own variable)
 		if len(vars) > 0 {
 			return piece{Text: fmt.Sprintf("if true { %s := 1; nosuchname_%d }", vars[k%len(vars)], k), Reject: "block-shadow-undefined"}
+		}
+	case "loop-var-shadow-undefined":
+		// rejected inside the body of a top-level range / in loop whose variables carry the names of live
+		// globals: the loop's scope must be gone afterwards
+		if len(vars) > 0 {
+			v := vars[k%len(vars)]
+			w := vars[(k/7)%len(vars)]
+			forms := []string{"for %[1]s := range [1, 2] { nosuchname_%[3]d }", "for _, %[1]s := range [7] { rjq := 1; nosuchname_%[3]d }", "for %[1]s in [1, 2] { nosuchname_%[3]d }",
+				"for rjk, %[1]s := range {\"a\": 1} { if true { nosuchname_%[3]d } }", "for %[1]s, %[2]s := range [1] { nosuchname_%[3]d }", "for %[1]s := range 3 { for %[2]s in [1] { nosuchname_%[3]d } }"}
+			f := forms[k%len(forms)]
+			if v == w && strings.Contains(f, "%[2]s") {
+				f = forms[0]
+			}
+			return piece{Text: fmt.Sprintf(f, v, w, k), Reject: "loop-var-shadow-undefined"}
 		}
 	case "undefined-in-loop":
 		// rejected while the compiler is inside a loop, before the loop has emitted anything
@@ -701,7 +715,7 @@ func worker(kind string, data json.RawMessage) any {
 			pieces = append(pieces, piece{Stmts: cur})
 			if c.Rejects && hi%2 == 1 {
 				// insert rejected pieces at random positions
-				kinds := []string{"syntax", "undefined", "const-assign", "dup-func", "const-incdec", "undefined-in-func", "block-shadow-undefined", "undefined-in-func-with-strings", "undefined-in-loop", "control-outside-loop"}
+				kinds := []string{"syntax", "undefined", "const-assign", "dup-func", "const-incdec", "undefined-in-func", "block-shadow-undefined", "undefined-in-func-with-strings", "undefined-in-loop", "control-outside-loop", "loop-var-shadow-undefined", "loop-var-shadow-undefined"}
 				if c.D20 {
 					kinds = []string{"effect-then-reject"}
 				}
